@@ -20,49 +20,49 @@ a liquidity handler, or a new rejecting guard over substrate values, shows up he
 theorem coinswap_translated_pinned : Irismod.Gen.PureCoinswap.translated =
     ["GetInputPrice(inputAmt,inputReserve,outputReserve,fee)",
      "GetOutputPrice(outputAmt,inputReserve,outputReserve,fee)",
-     "calcExactIn_boughtTokenAmt_1(exactSoldCoin,inputReserve,outputReserve,param_Fee)",
      "calcExactIn_guard_1(inputReserve)",
      "calcExactIn_guard_2(outputReserve)",
-     "calcExactOut_soldTokenAmt_1(exactBoughtCoin,inputReserve,outputReserve,param_Fee)",
+     "calcExactIn_boughtTokenAmt_1(exactSoldCoin,inputReserve,outputReserve,param_Fee)",
      "calcExactOut_guard_1(inputReserve)",
      "calcExactOut_guard_2(outputReserve)",
      "calcExactOut_guard_3(exactBoughtCoin,outputReserve)",
+     "calcExactOut_soldTokenAmt_1(exactBoughtCoin,inputReserve,outputReserve,param_Fee)",
      "TradeExactIn_guard_1(boughtTokenAmt,output_Coin)",
      "TradeExactOut_guard_1(soldTokenAmt,input_Coin)",
      "DoubleExactIn_guard_1(boughtAmt,output_Coin)",
      "DoubleExactOut_guard_1(soldTokenAmt,input_Coin)",
-     "AddLiquidity_mintLiquidityAmt_1(msg_ExactStandardAmt)",
-     "AddLiquidity_mintLiquidityAmt_2(msg_ExactStandardAmt)",
-     "AddLiquidity_mintLiquidityAmt_3(liquidity,msg_ExactStandardAmt,standardReserveAmt)",
-     "AddLiquidity_depositAmt_1(tokenReserveAmt,msg_ExactStandardAmt,standardReserveAmt)",
      "AddLiquidity_guard_1(standardDenom,msg_MaxToken)",
+     "AddLiquidity_mintLiquidityAmt_1(msg_ExactStandardAmt)",
      "AddLiquidity_guard_2(mintLiquidityAmt,msg_MinLiquidity)",
+     "AddLiquidity_mintLiquidityAmt_2(msg_ExactStandardAmt)",
      "AddLiquidity_guard_3(mintLiquidityAmt,msg_MinLiquidity)",
      "AddLiquidity_guard_4(standardReserveAmt,tokenReserveAmt,liquidity)",
+     "AddLiquidity_mintLiquidityAmt_3(liquidity,msg_ExactStandardAmt,standardReserveAmt)",
      "AddLiquidity_guard_5(mintLiquidityAmt,msg_MinLiquidity)",
+     "AddLiquidity_depositAmt_1(tokenReserveAmt,msg_ExactStandardAmt,standardReserveAmt)",
      "AddLiquidity_guard_6(depositAmt,msg_MaxToken)",
-     "RemoveLiquidity_irisWithdrawnAmt_1(msg_WithdrawLiquidity,standardReserveAmt,liquidityReserve)",
-     "RemoveLiquidity_tokenWithdrawnAmt_1(msg_WithdrawLiquidity,tokenReserveAmt,liquidityReserve)",
      "RemoveLiquidity_guard_1(standardReserveAmt,msg_MinStandardAmt)",
      "RemoveLiquidity_guard_2(tokenReserveAmt,msg_MinToken)",
      "RemoveLiquidity_guard_3(liquidityReserve,msg_WithdrawLiquidity)",
+     "RemoveLiquidity_irisWithdrawnAmt_1(msg_WithdrawLiquidity,standardReserveAmt,liquidityReserve)",
+     "RemoveLiquidity_tokenWithdrawnAmt_1(msg_WithdrawLiquidity,tokenReserveAmt,liquidityReserve)",
      "RemoveLiquidity_guard_4(irisWithdrawCoin,msg_MinStandardAmt)",
      "RemoveLiquidity_guard_5(tokenWithdrawCoin,msg_MinToken)",
+     "AddUnilateral_guard_1(msg_ExactToken,msg_CounterpartyDenom,read_k_GetStandardDenom_ctx)",
      "AddUnilateral_numerator_1(deltaFeeUnilateral)",
      "AddUnilateral_denominator_1()",
      "AddUnilateral_square_1(denominator,tokenBalanceAmt,numerator,exactTokenAmt,lptBalanceAmt)",
      "AddUnilateral_mintLptAmt_1(squareBigInt,lptBalanceAmt)",
-     "AddUnilateral_guard_1(msg_ExactToken,msg_CounterpartyDenom,read_k_GetStandardDenom_ctx)",
      "AddUnilateral_guard_2(mintLptAmt,msg_MinLiquidity)",
+     "RemoveUnilateral_guard_1(msg_MinToken,msg_CounterpartyDenom,read_k_GetStandardDenom_ctx)",
+     "RemoveUnilateral_guard_2(lptBalanceAmt,msg_ExactLiquidity)",
+     "RemoveUnilateral_guard_3(lptBalanceAmt,msg_ExactLiquidity)",
+     "RemoveUnilateral_guard_4(targetBalanceAmt,msg_MinToken)",
      "RemoveUnilateral_feeNumerator_1(deltaFeeUnilateral)",
      "RemoveUnilateral_feeDenominator_1()",
      "RemoveUnilateral_targetTokenNumerator_1(lptBalanceAmt,msg_ExactLiquidity,targetBalanceAmt,feeNumerator)",
      "RemoveUnilateral_targetTokenDenominator_1(lptBalanceAmt,feeDenominator)",
      "RemoveUnilateral_targetTokenAmtAfterFee_1(targetTokenNumerator,targetTokenDenominator)",
-     "RemoveUnilateral_guard_1(msg_MinToken,msg_CounterpartyDenom,read_k_GetStandardDenom_ctx)",
-     "RemoveUnilateral_guard_2(lptBalanceAmt,msg_ExactLiquidity)",
-     "RemoveUnilateral_guard_3(lptBalanceAmt,msg_ExactLiquidity)",
-     "RemoveUnilateral_guard_4(targetBalanceAmt,msg_MinToken)",
      "RemoveUnilateral_guard_5(targetTokenAmtAfterFee,msg_MinToken)"] := rfl
 
 private theorem oneSubFee (fee : Nat) (hfee : fee ≤ D) :
